@@ -351,6 +351,19 @@ let dispatch (f : Stdlib.String.t list) : Stdlib.String.t =
   | ["spec.dkim_body"; c; b] -> hex (spec_body (c = "r") (unhex b))
   | ["spec.dkim_field"; b] -> hex (spec_field_relaxed (unhex b))
   | ["spec.dkim_delete_b"; b] -> hex (delete_b (unhex b))
+  | ["tls.run"; mode; peer; prm; cr; hello; script; from; tos; msg] ->
+      let m = (match mode with "opportunistic" -> TOpportunistic | "required" -> TRequired | "wrapper" -> TWrapper | _ -> TNone) in
+      let pt = (match peer with "good" -> PCert CGood | "wrongname" -> PCert CWrongName | "selfsigned" -> PCert CSelfSigned | "expired" -> PCert CExpired | _ -> PNoTls) in
+      let p = { add_root = prm.[0] = '1'; accept_invalid_certs = prm.[1] = '1'; accept_invalid_hostnames = prm.[2] = '1' } in
+      let c = (if cr = "!" then None else (match split ',' cr with
+        | [ms; u; pw] -> Some ((mechs_of_string ms, unhex u), unhex pw)
+        | _ -> failwith "creds")) in
+      let sc = List.map parse_chunk (split ';' script) in
+      let env = { e_from = (if from = "!" then None else Some (unhex from)); e_to = unhexlist tos } in
+      let (r, t) = tsend m (unhex hello) pt p c sc env (unhex msg) in
+      Printf.sprintf "%s\t%s\t%s" (rres_s r)
+        (String.concat ";" (List.map unit_s (List.rev (clear_units t))))
+        (String.concat ";" (List.map unit_s (List.rev (tls_units t))))
   | fn :: _ -> "UNKNOWN-FN " ^ fn
   | [] -> "EMPTY"
 
